@@ -124,7 +124,14 @@ def unit_classify(U):
                     p.pc, goal, {"line": b}, replay=replay)
 
 
-UNITS = [("classify", unit_classify)] + PL.c14_units()
+def unit_own_directives(U):
+    """each iterator collects directives in a list of its own (not a class attribute, not a shared default): reading a
+    second file must not change what the first iterator reports; shared with C13"""
+    from props import C13
+    C13.unit_init_state(U, prefix="C14.iterator")
+
+
+UNITS = [("classify", unit_classify), ("own_directives", unit_own_directives)] + PL.c14_units()
 try:
     from standins import C14 as _S
     UNITS = UNITS + list(_S.UNITS)
